@@ -356,10 +356,64 @@ theorem flattenL_tops : ∀ ts : List T, (flattenL ts).map (fun x => (x.1, summa
   | t :: ts => by simp [flattenL, topsL, flatten_tops t, flattenL_tops ts]
 end
 
+/-! custom suites survive `sorted_tests` at every depth (seed C19-f) -/
+theorem customsL_append (par : Option Ident) (xs ys : List T) : customsL par (xs ++ ys) = customsL par xs ++ customsL par ys := by
+  induction xs with
+  | nil => simp [customsL]
+  | cons x xs ih => simp [customsL, ih]
+
+theorem customsL_perm (par : Option Ident) {xs ys : List T} (h : xs.Perm ys) : (customsL par xs).Perm (customsL par ys) := by
+  induction h with
+  | nil => exact List.Perm.refl _
+  | cons x _ ih => simp only [customsL]; exact List.Perm.append_left _ ih
+  | swap x y l =>
+    simp only [customsL, ← List.append_assoc]
+    exact List.Perm.append_right _ List.perm_append_comm
+  | trans _ _ ih1 ih2 => exact ih1.trans ih2
+
+/- flattening (with the recursive `sort_tests` of the suites that have one) keeps every non-plain suite: same class, same
+tests, same enclosing non-plain suite -/
+mutual
+theorem flatten_customs : ∀ (par : Option Ident) (t : T), (customsL par ((flatten false t).map (·.2))).Perm (customs par t)
+  | par, .case id => by simp [flatten, customsL, customs]
+  | par, .suite k cs => by
+      simp only [flatten, Bool.or_false, decide_eq_true_eq]
+      by_cases hk : k = .plain
+      · simp only [hk, if_true, customs]
+        exact flattenL_customs par cs
+      · simp only [hk, if_false, List.map_cons, List.map_nil, customsL, List.append_nil]
+        by_cases hs : k = .csort
+        · simp only [hs, if_true, customs, if_false, reduceCtorEq]
+          have hids : ascending (iterateL ((sortItems (flattenL cs)).map (·.2))) = ascending (iterateL cs) :=
+            ascending_perm ((iterateL_perm ((sortItems_perm _).map _)).trans (flattenL_perm cs))
+          rw [hids]
+          exact List.Perm.cons _ ((customsL_perm _ ((sortItems_perm _).map _)).trans (flattenL_customs _ cs))
+        · simp only [hs, if_false]
+          exact List.Perm.refl _
+theorem flattenL_customs : ∀ (par : Option Ident) (ts : List T), (customsL par ((flattenL ts).map (·.2))).Perm (customsL par ts)
+  | par, [] => by simp [flattenL, customsL]
+  | par, t :: ts => by
+      simp only [flattenL, List.map_append, customsL_append, customsL]
+      exact List.Perm.append (flatten_customs par t) (flattenL_customs par ts)
+end
+
+/-- C19 (custom suites whole, at every depth): in what `sorted_tests` returns every suite of the input that is not a plain
+`TestSuite` is present exactly once - its class, its tests and the custom suite it sits in unchanged -, wherever it was nested:
+below plain suites (dissolved around it), inside a suite that sorted itself, inside a suite kept as it is.  Nothing else of the
+kind is in the result. -/
+theorem C19_sorted_customs_whole (t r : T) (h : sortedTests t = some r) : (customs none r).Perm (customs none t) := by
+  unfold sortedTests at h
+  split at h
+  · cases h
+  · simp only [Option.some.injEq] at h
+    subst h
+    simp only [customs, if_true]
+    exact (customsL_perm _ ((sortItems_perm _).map _)).trans (flatten_customs none t)
+
 /-! ## headline: the executable spec holds of the model's trace, for every input -/
 theorem holds_model (i : Input) : holds i (model i) = true := by
   simp only [holds, clauses, List.all_cons, List.all_nil, Bool.and_true, Bool.and_eq_true]
-  refine ⟨?_, ?_, ?_, ?_, ?_, ?_, ?_, ?_, ?_⟩
+  refine ⟨?_, ?_, ?_, ?_, ?_, ?_, ?_, ?_, ?_, ?_⟩
   · simp [cIter, model]
   · simp [cFilterIds, model, iterate_filter]
   · simp [cFilterShape, model, rel_filter]
@@ -398,6 +452,10 @@ theorem holds_model (i : Input) : holds i (model i) = true := by
     cases sortedTests i.tree with
     | none => rfl
     | some r => simp [iterate_filter]
+  · simp only [cSortedWhole, model]
+    cases h : sortedTests i.tree with
+    | none => rfl
+    | some r => exact List.isPerm_iff.mpr (C19_sorted_customs_whole _ _ h)
 
 /-- C19 (sort, then filter — what `testtools.run discover --load-list` does): filtering the suite `sorted_tests` returned keeps
 exactly the chosen ids, in the sorted order; in particular every suite in that result - a suite whose own `sort_tests` ran
@@ -443,6 +501,17 @@ theorem C19_src_flatten (outer : Bool) (t : T) :
     SuiteUtilSkel.flattenI Generated.SuiteSrc.flattenTests outer t = flatten outer t := by
   have e : Generated.SuiteSrc.flattenTests = SuiteUtilSkel.refFlatten := by decide
   rw [e]; exact SuiteUtilSkel.flattenI_ref outer t
+
+/-- the children the model gives a suite whose own `sort_tests` ran (kind `csort`: the harness's class AND the library's
+`FixtureSuite`) are the interpretation of `FixtureSuite.sort_tests` as found in the source: the items of `sorted_tests(self, True)` -
+so custom suites below it stay whole (seed C19-f replaced them by their leaves) -/
+theorem C19_src_fixture_sort (cs : List T) :
+    SuiteUtilSkel.sortSelfI Generated.SuiteSrc.flattenTests Generated.SuiteSrc.fixtureSortTests cs
+      = some ((sortItems (flattenL cs)).map (·.2)) := by
+  have e : Generated.SuiteSrc.flattenTests = SuiteUtilSkel.refFlatten := by decide
+  have e2 : Generated.SuiteSrc.fixtureSortTests = SuiteUtilSkel.refSortSelf := by decide
+  rw [e, e2]
+  simp [SuiteUtilSkel.sortSelfI, SuiteUtilSkel.refSortSelf, SuiteUtilSkel.flattenIL_ref]
 
 /-- the model's `sortedTests` is the interpretation of the steps of `sorted_tests` as found in the source: duplicate check over
 `iterate_tests` of the whole argument (raising `ValueError`), flatten, stable sort by `(id is not None, id)`, wrap in a plain suite -/
